@@ -1,6 +1,7 @@
 INIT CInit
 NEXT Next
 CONSTANTS
+  Dev = {}
   Kinds = {}
   Strict = TRUE
   Full = TRUE
